@@ -66,12 +66,20 @@ def handmade():
     # aliases that are prefixes of each other and of referenced paths; many imports; fields with !value from different packages
     sc.append({"name": "aliases-and-imports", "docs": [{
         "meta": {"imports": {"a": "probe.test/p", "ab": "probe.test/pq", "abc": "probe.test/x/p", "p": "probe.test/fx"},
-                 "functions": {"f%d" % i: "ab.Fn" for i in range(4)}},
+                 "functions": {"f%d" % i: ["ab.Fn", "abc.Fn", "a/q.Fn", "p.Fn"][i] for i in range(4)}},
         "parameters": {"q%d" % i: "%%f%d()%%" % i for i in range(4)},
         "services": {"s%d" % i: {"constructor": ["a.NewA", "ab.NewA", "abc.NewA", "p.NewA", "a/q.NewA"][i % 5],
                                  "fields": {"F1": "!value ab.Var", "F2": "!value abc.Var", "f3": "!value a.Var"},
                                  "tags": ["t%d" % (i % 2)]} for i in range(6)},
         "decorators": [{"tag": "t0", "decorator": "p.Decorate"}, {"tag": "t1", "decorator": "abc.Decorate"}]}], "args": None})
+    # a service re-opened in a later file: tags, calls and fields from both files; parameters and functions overridden
+    sc.append({"name": "reopened-across-files", "docs": [
+        {"meta": {"imports": {"fx": "probe.test/fx", "fy": "probe.test/fy"}, "functions": {"g1": "fx.Fn", "g2": "fy.Fn"}},
+         "parameters": {"a": 1, "b": "%g1()%", "c": "%g2()%"},
+         "services": {"w": {"constructor": "fx.NewA", "tags": ["writer", {"name": "io", "priority": 1}, "z"], "fields": {"F1": "!value fy.Var"}}}},
+        {"meta": {"functions": {"g2": "fx.FnInt", "g3": "fy.FnE"}}, "parameters": {"a": 2, "d": "%g3()%"},
+         "services": {"w": {"tags": [{"name": "closer", "priority": 3}, "a"], "calls": [["SetX", ["%d%"]]], "fields": {"F2": "!value fx.Var"}},
+                      "v": {"constructor": "fy.NewB", "arguments": ["!tagged io", "@w"]}}}], "args": None})
     # keys that differ only by case
     sc.append({"name": "case-colliding-keys", "docs": [{"parameters": {"db": 1, "DB": 2, "Db": 3, "dB": 4, "dsn": "%db%", "DSN": "%DB%"},
                                                         "services": {"svc": {"constructor": "NewA", "fields": {"Ab": 1, "aB": 2, "AB": 3}},
@@ -117,6 +125,9 @@ def run_c08(tier):
             perm = k >= R
             d = os.path.join(wd, "s%04d" % si, ("p%02d" % k if perm else "r%02d" % k), *(["deep"] * (k % 3)))
             names = realise(sc["files"], d, random.Random(seed0 if not perm else seed0 + k), sc["names"], sc["abstract"])
+            if k % 3 == 1:      # sometimes the working directory lies inside a Go module whose path prefixes the imported packages
+                with open(os.path.join(os.path.dirname(d) if k % 3 else d, "go.mod"), "w") as fh:
+                    fh.write("module probe.test\n\ngo 1.21\n")
             args = sc["args"] or [a for nme in names for a in ("-i", nme)]
             env = {"PATH": os.environ.get("PATH", ""), "HOME": "/nonexistent%d" % k, "LANG": rng.choice(["C", "en_US.UTF-8", "pl_PL"]),
                    "TZ": rng.choice(["UTC", "Asia/Tokyo"]), "VERIF_NOISE_%d" % k: str(rng.random()), "NO_COLOR": "1",
